@@ -267,7 +267,13 @@ def oracle(env):
                           {'expected_tokens': len(e_on), 'got_tokens': len(g_on), 'mergeProps': merge}))
     exp_eval = [g for g in exp_eval if g.kind != 'on']
     got_eval = [g for g in got_eval if g.kind != 'on']
+    forced = (not merge) and len(e_on) > 0          # an on/nativeOn object under transformOn goes through mergeProps even when the option is off
     for k in keys:
+        mode0 = denote.mergeable_mode(ctx, k)
+        if mode0 != 'shallow' and not (ctx.decide(seq(k, SStr.of('class'))) or ctx.decide(seq(k, SStr.of('style')))):
+            # a plain attribute name written twice: outside the quantifier of the statement (listed under assumptions)
+            if sum(1 for x in _attr_names(attrs) if ctx.decide(seq(x, k))) >= 2:
+                continue
         e_t = denote.denote_key(ctx, exp_eval, k, True)
         g_t = denote.denote_key(ctx, got_eval, k, True)
         e_t = [t for t in e_t if not _is_on_tok(t)]; g_t = [t for t in g_t if not _is_on_tok(t)]
@@ -276,14 +282,22 @@ def oracle(env):
             # main clause: the same handlers in the same order (arrays flattened completely) ...
             e_d = _deep(e_t); g_d = _deep(g_t)
             obs.append(Obligation('props are exactly the written attributes', denote.tokens_equal(ctx, e_d, g_d),
-                                  {'key': k, 'expected_tokens': len(e_d), 'got_tokens': len(g_d), 'mergeProps': merge}))
+                                  {'key': k, 'expected_tokens': len(e_d), 'got_tokens': len(g_d), 'mergeProps': merge, 'on_forces_merge': forced}))
             # ... and the listener value is a flat array as Vue's own merging produces (DOM listeners do not accept nested arrays)
             obs.append(Obligation('merged listeners form a flat array', denote.tokens_equal(ctx, e_t, g_t),
-                                  {'key': k, 'expected_tokens': len(e_t), 'got_tokens': len(g_t), 'mergeProps': merge}))
+                                  {'key': k, 'expected_tokens': len(e_t), 'got_tokens': len(g_t), 'mergeProps': merge, 'on_forces_merge': forced}))
         else:
             obs.append(Obligation('props are exactly the written attributes', denote.tokens_equal(ctx, e_t, g_t),
-                                  {'key': k, 'expected_tokens': len(e_t), 'got_tokens': len(g_t), 'mergeProps': merge}))
+                                  {'key': k, 'expected_tokens': len(e_t), 'got_tokens': len(g_t), 'mergeProps': merge, 'on_forces_merge': forced}))
     return obs
+
+
+def _attr_names(attrs):
+    out = []
+    for a in attrs:
+        if a.variant != 'SpreadElement':
+            out.append(denote.attr_name(a.fields[0]))
+    return out
 
 
 def _is_on_tok(t):
@@ -357,6 +371,8 @@ def classify(v, detail):
         return 'panic'
     if ob.startswith('vnode type'):
         return 'tag:%s->%s' % (info.get('expected'), info.get('got'))
+    if info.get('on_forces_merge') and (ob.startswith('merged listeners') or ob.startswith('props')):
+        return 'mergeProps-off:an-on-object-under-transformOn-still-combines-the-element-through-mergeProps'
     if ob.startswith('merged listeners'):
         return 'listener:nested-array-from-repeated-attribute'
     if ob.startswith('props'):
